@@ -9,6 +9,7 @@ import (
 	"io"
 	"net/http"
 	"net/http/httptest"
+	"regexp"
 	"runtime/debug"
 	"sort"
 	"strings"
@@ -696,7 +697,9 @@ func (st *runState) finishWith(ri *simcheck.RunInfo, sim *simrt.Sim, sys *System
 							}
 						}
 						sort.Strings(have)
-						add("C04", "acked-sample-not-indexed", st.classifyIndexMiss(f, tp, lo, hi, have, seriesAt, r, x),
+						xx := *x
+						xx.TsNs = ts
+						add("C04", "acked-sample-not-indexed", st.classifyIndexMiss(f, tp, lo, hi, have, seriesAt, r, &xx),
 							fmt.Sprintf("req%d (%s) acknowledged %d at ev %d (started ev %d); sample ts=%s type=%d fingerprint=%d has no successfully inserted series row with day in [%d,%d] before the ack; series rows of that fingerprint (fp|type|day): %v; tz offset %d min; blocks: %s",
 								r.ID, r.Op.Proto, r.Status, r.StatusEv, r.StartEv, tm.UTC().Format(time.RFC3339Nano), tp, f, lo, hi, have, s.Cfg.TZOffsetMin, st.blockSummary(30)))
 					}
@@ -833,6 +836,9 @@ func (st *runState) checkSampleBlock(blk *chfake.Block, add func(p, oracle, sig,
 		}
 		seen[id] = true
 		gotTs, gotTp := ts.Vals[i].(int64), tp.Vals[i].(uint64)
+		if x.TsNs == -1 {
+			gotTs = -1 // server-side timestamp (Elastic routes): not comparable
+		}
 		if gotTs != x.TsNs || gotTp != x.Type || (x.Tag != "" && line != x.Line) || (x.Type != 1 && v != x.Val) {
 			prop, oracle := "C02", "row-fields-mixed"
 			// is the mismatching field another submitted row's field (interleaving) or a decoding error?
@@ -984,19 +990,14 @@ func (st *runState) blockSummary(n int) string {
 	return strings.Join(b, "; ")
 }
 
+var reTag = regexp.MustCompile(`q[0-9]+s[0-9]+e[0-9]+`)
+
+// tagOf finds the run-unique entry tag inside a stored line.
 func tagOf(line string) string {
-	if len(line) < 4 || line[0] != 'q' {
-		return ""
+	if len(line) > 400 {
+		line = line[:400]
 	}
-	i := strings.IndexByte(line, ' ')
-	if i < 0 {
-		i = len(line)
-	}
-	t := line[:i]
-	if !strings.Contains(t, "s") || !strings.Contains(t, "e") {
-		return ""
-	}
-	return t
+	return reTag.FindString(line)
 }
 
 func colShape(b *chfake.Block) string {
